@@ -20,8 +20,10 @@ def resOf : Char → Option Res
   | 'c' => some (.chan .closed) | 'o' => some (.chan .opn) | 'z' => some (.chan .nil) | 'P' => some .panic
   | _ => none
 
+/-- `c` = SetContext(nil), a call outside the four the property is about: it has no result of its own and must not change
+    what the settlement calls around it do, so it is dropped before the model and the monitor see the sequence -/
 def opsOf (s : String) : Option (List Op) :=
-  if s = "-" then some [] else s.toList.mapM opOf
+  if s = "-" then some [] else (s.toList.filter (· != 'c')).mapM opOf
 
 def dash (s : String) : String := if s.isEmpty then "-" else s
 
